@@ -120,6 +120,9 @@ def run_mock(pid, tier, t0, plans, assumptions, rule, level_note=None, plan_key=
         if hopts.get("nostd"):
             vf.build_harness(nostd=True)
             vh_path = vf.VH_NOSTD
+        if hopts.get("nomutex"):
+            vf.build_harness(nomutex=True)
+            vh_path = vf.VH_NOMUTEX
         r, res, rc = vf.run_tlc_replay(inst, name, args, workers=workers, timeout=3000 if tier == "thorough" else 900, simulate=sim, vh_path=vh_path)
         if r.get("violated"):
             # the specification itself violates one of its property-shaped invariants: the model is wrong
@@ -137,7 +140,7 @@ def run_mock(pid, tier, t0, plans, assumptions, rule, level_note=None, plan_key=
         cov["distinct_nontrivial"] += st.get("with_calls", 0)
         cov["instances"].append({"name": name, "mode": "simulate" if sim else "exhaustive", "tlc_distinct_states": r["distinct"],
                                  "tlc_states_generated": r["generated"], "tlc_wall_s": r["wall_s"], "replay": st,
-                                 "routed_over_clones": res.get("routed_over_clones", 0), "unimock_build": "no_std + critical-section + spin-lock" if hopts.get("nostd") else "std",
+                                 "routed_over_clones": res.get("routed_over_clones", 0), "unimock_build": "no_std + critical-section + spin-lock" if hopts.get("nostd") else "no_std + critical-section, no mutex API" if hopts.get("nomutex") else "std",
                                  "constants": {k: v for k, v in inst["constants"].items() if k in ("LeafFam", "MaxLeaves", "MaxCalls", "Arg", "ScriptFam", "StrictFam", "Vias", "UpFam")}})
         if len(cov["samples"]) < 3:
             cov["samples"] += res.get("samples", [])[:2]
@@ -999,7 +1002,8 @@ def run_property(pid, tier, t0):
     if pid == "C17":
         return run_c17(pid, tier, t0)
     if pid == "C14":
-        return run_c14(pid, tier, t0)
+        return composite(pid, tier, t0, [("clause trees, inconsistent lists, builder chains (Assemble.tla / Builder.tla, generated programs)", lambda: run_c14(pid, tier, t0)),
+                                         ("returns that cannot be stored without a mutex API (Mock.tla with HasMutexApi = FALSE, replay on the critical-section-only build)", mock)])
     if pid == "C06":
         return run_matching(pid, tier, t0, "C06")
     if pid == "C20":
